@@ -278,7 +278,16 @@ func ruleC04_5(c *Ctx) {
 		return
 	}
 	fn := fname(f)
-	le := firstCall(f, "in_toto.loadEnvelope")
+	// the envelope loader call: in LoadMetadata or in an unexported helper it hands the envelope branch to
+	var le ssa.CallInstruction // the call (or the helper call) in LoadMetadata's frame
+	inner := f                 // the function that contains the loadEnvelope call itself
+	var leInner ssa.CallInstruction
+	if st := c.stage(f, "in_toto.loadEnvelope"); st != nil {
+		le, leInner = st.site(), st.call
+		if g := st.inner(); g != nil {
+			inner = g
+		}
+	}
 	var detect ssa.Value
 	for _, b := range f.Blocks {
 		for _, in := range b.Instrs {
@@ -297,7 +306,7 @@ func ruleC04_5(c *Ctx) {
 	// payload type check
 	okPT := false
 	pt := ""
-	for _, b := range f.Blocks {
+	for _, b := range inner.Blocks {
 		for _, in := range b.Instrs {
 			bo, ok := in.(*ssa.BinOp)
 			if !ok {
@@ -307,12 +316,27 @@ func ruleC04_5(c *Ctx) {
 				pt = s
 				for _, cu := range condUsers(bo, false) {
 					neq := bo.Op.String() == "!="
-					if c.failing(branchTaken(cu, neq)) && le != nil && c.condAt(bo, !neq, le.Block()) {
+					if c.failing(branchTaken(cu, neq)) && leInner != nil && c.condAt(bo, !neq, leInner.Block()) {
 						okPT = true
 					}
 				}
 			}
 		}
+	}
+	// a failure inside the helper fails LoadMetadata
+	if inner != f && le != nil {
+		okUp := false
+		if e := errResult(le); e != nil {
+			for _, br := range errBranches(e) {
+				okUp = okUp || c.failing(br.NonNil)
+			}
+			for _, r := range returnsOf(f) {
+				if pc, _ := producer(r.Results[len(r.Results)-1], r); pc == le {
+					okUp = true
+				}
+			}
+		}
+		okPT = okPT && okUp
 	}
 	c.check(okPT && pt == "application/vnd.in-toto+json", R, fn, "a foreign payload type fails before the envelope is loaded", f.Pos(), pt, "payload type "+pt+" is not enforced before loadEnvelope")
 	if sp := c.lookup("(*in_toto.Envelope).SetPayload"); sp != nil {
@@ -886,11 +910,19 @@ func ruleC12_3(c *Ctx) {
 		if f == nil {
 			continue
 		}
-		for _, b := range f.Blocks {
-			for _, in := range b.Instrs {
-				if lk, ok := in.(*ssa.Lookup); ok {
-					if k, ok := constString(lk.Index); ok {
-						used[k] = true
+		frames := []*ssa.Function{f}
+		for g := range c.ownedBy(f) {
+			if g != f {
+				frames = append(frames, g)
+			}
+		}
+		for _, fr := range frames {
+			for _, b := range fr.Blocks {
+				for _, in := range b.Instrs {
+					if lk, ok := in.(*ssa.Lookup); ok {
+						if k, ok := constString(lk.Index); ok {
+							used[k] = true
+						}
 					}
 				}
 			}
